@@ -65,6 +65,17 @@ CHECKS = {
              'BOM+shebang unconstrained.',
         technique='TLA+ (TLC) enumeration of the encoding configuration space + trace validation of observed minify()/CLI results',
         design_ref='3.7, 5 (C16)'),
+    'C11': dict(
+        specs='Api.tla, Trace_Api.tla',
+        text='Call histories over caller-owned list objects shared between calls and threads, with calls broken into the steps that read or '
+             'extend those lists; TLC checks ArgsUntouched and ResultIsFresh over every plan and interleaving in bounds (1x3, 2x1; thorough 2x2) '
+             'and generates (plan, schedule) histories that are replayed in the real code with threads forced through the schedule at stage '
+             'boundaries; every result is compared with a fresh process. Plus single-process histories, 4 (quick) / 32 (thorough) hash seeds and '
+             'free-running threads over pinned real modules, all judged by TLC.',
+        note='Forced interleavings are at seam (stage-boundary) grain; fresh reference = same tree, one call per process; option sets fixed to '
+             'rename_globals=True for histories.',
+        technique='TLA+ (TLC) model checking of call histories/interleavings + replay of TLC-generated behaviours into the implementation',
+        design_ref='3.8, 5 (C11)'),
     'C08': dict(
         specs='Pipeline.tla, PipelineS.tla, Trace_Pipeline.tla',
         text='TLC exhaustively checks the implementation-shaped pipeline model against the envelope (all 2^14 gating option sets x taint x '
